@@ -5,8 +5,8 @@ of the first rule in that order that matches with effect allow/deny, else deny.
 Subject priority: after load, every rule of a subject precedes every rule of the roles it inherits from."""
 import itertools
 
-from ..core import Check
-from .. import mgmt
+from ..core import Check, Oracle, build_oracle
+from .. import mgmt, c07_subject
 from ..specs import truthy, fmatch
 
 PROP = "C07"
@@ -122,19 +122,41 @@ def main():
                 "of <=2/3 calls from a 10-call alphabet (single/batch add, remove, update, batch update) with decisions "
                 "after each call, plus random histories on ACL- and RBAC-shaped priority models; non-trivial = at least "
                 "one mutating call; distinct by (kind, mutating calls)")
+    chk.rule += ("; subject-priority stratum: every hierarchy on 3 names (512 digraphs incl. self-loops and cycles) x 2 "
+                 "arrival orders, plus random hierarchies on <=6 names (forests, DAGs, cycles; one or two domains) with "
+                 "1-3 edit/save/reload rounds on the same enforcer; non-trivial = non-empty hierarchy and policy")
     chk.assumptions = ["priorities are decimal strings (non-numeric keys are outside the property)",
+                       "subject-priority model: names and domains do not contain '::' (get_name_with_domain is then injective)",
                        "the model was loaded once (priority_index is only set by load_policy in this code base)"]
-    chk.trusted = ["hand-written models coq/theories/{Policy,RoleGraph,Mgmt}.v tied by the differential history correspondence"]
+    chk.trusted = ["hand-written models coq/theories/{Policy,RoleGraph,Mgmt,Subject}.v tied by the differential history correspondence"]
     chk.build(oracle_name="Mgmt")
+    spath, slog = build_oracle("C07")                    # second oracle: coq/theories/Subject.v
+    soracle = Oracle(spath) if spath else None
+    if slog:
+        chk.oracle_log = (chk.oracle_log or "") + slog
+        chk.notes.append(slog[:500])
     if chk.replay_file:
-        return mgmt.replay_case(chk, spec_check)
+        return replay(chk, soracle)
     if chk.tier == "thorough":
         run(chk, 2500, 3)
+        c07_subject.run(chk, soracle, 6000)
     else:
         run(chk, 250, 2)
+        c07_subject.run(chk, soracle, 500)
         if chk.broken() and not chk.spec_failures:
             run(chk, 1000, 3)
+            c07_subject.run(chk, soracle, 3000, exhaustive=False)
     chk.finish()
+
+
+def replay(chk, soracle):
+    import json
+    rec = json.load(open(chk.replay_file))
+    case = rec.get("case", {})
+    if case.get("stratum") == "subject-priority":
+        c07_subject.run(chk, soracle, 0, exhaustive=False, seed_cases=[case["case"]])
+        return chk.finish()
+    return mgmt.replay_case(chk, spec_check)
 
 
 if __name__ == "__main__":
